@@ -198,6 +198,7 @@ def judge_map(month, stride):
             out.append(("map_lookup_no_exception", tag, "vectorised call", f"{type(ex).__name__}: {str(ex)[:60]}"))
             return
         n += len(la)
+        lo = np.where(lo > 180.0, lo - 360.0, lo)  # (sites given in the [0, 360) convention: judged at the equivalent longitude)
         i1 = np.clip(np.searchsorted(lats, la, side="left"), 0, nlat - 1)
         i0 = np.clip(i1 - 1, 0, nlat - 1)
         # a coordinate that IS a node (within degree<->radian rounding) brackets only itself and its neighbours' edge
@@ -218,6 +219,10 @@ def judge_map(month, stride):
         return
 
     check(lats[::stride], lons[::stride], "nodes")
+    # one vectorised call whose sites mix both longitude conventions ([-180, 180] and (180, 360)): element by element
+    mid = 0.5 * (lons[:-1] + lons[1:])[:: max(1, stride // 2)]
+    check(0.5 * (lats[:-1] + lats[1:])[:: max(1, stride)], np.where(np.arange(len(mid)) % 2 == 0, mid, np.where(mid < 0, mid + 360.0, mid)), "mixed_conventions")
+    check(0.5 * (lats[:-1] + lats[1:])[:: max(1, stride)], np.where(mid < 0, mid + 360.0, mid), "wrapped_convention")
     check(np.concatenate([lats[:1], lats[-1:]]), lons[:: max(1, stride // 2)], "poles")
     check(lats[:: max(1, stride // 2)], np.concatenate([lons[:1], lons[-1:]]), "date_line")
     check(0.5 * (lats[:-1] + lats[1:])[:: max(1, stride // 2)], 0.5 * (lons[:-1] + lons[1:])[:: max(1, stride // 2)], "centres")
